@@ -56,7 +56,7 @@ func confObs(h *HistRun, s Snap) string {
 
 func waitListening(ports ...int) {
 	for _, p := range ports {
-		for i := 0; i < 200; i++ {
+		for i := 0; i < 3000; i++ {
 			c, err := net.DialTimeout("tcp", fmt.Sprintf("127.0.0.1:%d", p), 100*time.Millisecond)
 			if err == nil {
 				c.Close()
